@@ -5,7 +5,7 @@ Works on scratch copies only (/tmp/se); /repo and /verif sources are never modif
 that a confirmed change is stored under /verif/seeded/<seed-id>/ (patch.diff, demo.rs, meta.json)."""
 import json, os, shutil, subprocess, sys, time
 
-SE = "/tmp/se"
+SE = os.environ.get("SE_DIR", "/tmp/se")
 WT = f"{SE}/wt"
 MH = f"{SE}/harness"
 OUT = f"{SE}/out"
@@ -113,7 +113,7 @@ def main():
         meta.update({"seed_id": sid, "breaks_property": meta.get("property", sid[:3]),
                      "confirmed_by_me": {"demo_passes_without_change": ok_clean, "demo_fails_with_change": not ok_patched,
                                          "suite_with_change": log["suite_with_change"],
-                                         "how": "scratch worktree /tmp/se/wt: cargo test --offline --test demoN with and without the patch; cargo test --workspace --no-fail-fast --offline with the patch"},
+                                         "how": "scratch worktree under /tmp: cargo test --offline --test demoN with and without the patch; cargo test --workspace --no-fail-fast --offline with the patch"},
                      "quick_checks_run_against_it": {k: v for k, v in res.items()} if isinstance(res, dict) else res,
                      "caught_by": caught})
         json.dump(meta, open(f"{d}/meta.json", "w"), indent=1)
